@@ -504,9 +504,11 @@ def _build_eval_tree(
                     # multiple exponents
                     #     (2^3^4)  --> (2^(3^4))
                     #     (2 * 3 / 4) --> ((2 * 3) / 4)
-                    if op_priority[token_text] <= op_priority.get(
-                        prev_op, -1
-                    ) and token_text not in ("**", "^"):
+                    prev_priority = op_priority.get(prev_op, -1)
+                    if op_priority[token_text] < prev_priority or (
+                        op_priority[token_text] == prev_priority
+                        and token_text not in ("**", "^")
+                    ):
                         # previous operator is higher priority, so end previous binary op
                         return result, index - 1
                     # get right side of binary op
